@@ -101,6 +101,31 @@ class C06(DimwiseCheck):
     def monitors(self):
         return [DS.StructureMonitor()]
 
+    def gen(self, rk, tier, idx):
+        sched = super().gen(rk, tier, idx)
+        cfg = sched["config"]
+        x = stream(rk, "extremes")
+        u = x.random()
+        if u < 0.06 and not cfg.get("cluster"):
+            # boxes of very small or very large extent (anchored at the scaled corner, so the relative resolution is that of the
+            # unscaled box): the tiling clauses are about exact end points, whatever the scale
+            sc = x.choice([1e-12, 1e-12, 1e-9, 1e-6, 1e6])
+            cfg["a"] = [v * sc for v in cfg["a"]]
+            cfg["b"] = [v * sc for v in cfg["b"]]
+            cfg["box_scale"] = sc
+            cfg["jump"] = False
+        elif u < 0.09 and not cfg.get("cluster"):
+            # drill: the interval at one place of each dimension is bisected step after step until it approaches the resolution of
+            # the floating-point numbers (the library refuses by assertion around depth 53; histories stop short of it or end there)
+            dim = x.choice([1, 2, 2])
+            cfg.update(dim=dim, lmin=1, lmax=2, margin=x.choice([0.9, 1.0]), mode="mix", p_zero=0.0, p_tie=0.0, p_near=0.0, scale=1.0,
+                       rebalancing=x.random() < 0.5, evals=x.randint(40, 52), max_intervals=10 ** 4, max_points=10 ** 6, drill=True, recalc=None,
+                       bias=["focus", [x.choice([0.0, 0.5, 1.0 - 2.0 ** -53, 0.3]) for _ in range(dim)], 0.0], focus=True, two_legs=None, use_epoch=False)
+            cfg["a"] = [0.0] * dim
+            cfg["b"] = [1.0] * dim
+            cfg.pop("long_narrow", None)
+        return sched
+
 
 class C03(DimwiseCheck):
     pid = "C03"
